@@ -64,6 +64,8 @@ WRAPPERS = {
     "for-body": ".for i := 0, 2 {\n%s\n}",
     "block": "{\n{\n%s\n}\n}",
     "named-scope": ".scope wns {\n%s\n}",
+    "included-file": ".include 'inc.s'",
+    "included-file-in-scope": "{\n.include 'inc.s'\n}",
     "if-in-macro-in-for": ".macro wrapi(x) {\n.if x {\n%s\n}\n}\n.for i := 1, 2 {\nwrapi(i)\n}",
 }
 
@@ -126,7 +128,9 @@ def drive(entry, src, syms, cx):
     lg2.propagate = False
     lg2.addHandler(rec)
     try:
-        with virtual_files(cx, {"in.s": src}, outputs=["out.bin"]):
+        files = {"in.s": src}
+        files.update(getattr(cx, "files", {}))
+        with virtual_files(cx, files, outputs=["out.bin"]):
             if entry == "string":
                 p = new_program(syms=syms)
                 try:
@@ -198,7 +202,10 @@ def build(spec, cx):
     if spec["fam"] == "structural":
         lines = list(BASES[spec["base"]])
         stmt = STRUCTURAL[spec["err"]]
-        if spec.get("wrapper"):
+        if spec.get("wrapper", "").startswith("included-file"):
+            cx.files = {"inc.s": "nop\n" + stmt + "\nnop\n"}
+            stmt = WRAPPERS[spec["wrapper"]]
+        elif spec.get("wrapper"):
             stmt = WRAPPERS[spec["wrapper"]] % stmt
         lines.insert(spec["pos"], stmt)
         return "\n".join(lines) + "\n", {}
